@@ -146,6 +146,7 @@ class DensityFromOrbs(DensityBase):
         f = dens.evaluate_density_using_evaluated_orbs
         if nb == 2 and not shape.get("psd"):
             asym = M.vec("h", (nb, nb))
+            asym[1, 0] = asym[0, 1] + M.pos("gap")  # asymmetric for every value of the symbols, not merely generically
             M.raises("density_from_orbs/rejects/asymmetric", lambda: f(asym, phi), ValueError)
             M.raises("density_from_orbs/rejects/not-square", lambda: f(M.vec("h2", (nb, nb + 1)), phi), ValueError)
             M.raises("density_from_orbs/rejects/size", lambda: f(sym_dm(M, nb + 1, "k"), phi), ValueError)
